@@ -1064,22 +1064,34 @@ class Sandboxes:
     def sub(self, s):
         return s.replace('{TOP}', self.top)
 
-    CASE_LIMIT = 60.0       # seconds for one (non-scheduled) case; the unchanged tree needs milliseconds
+    CASE_LIMIT = 30.0       # seconds for one (non-scheduled) case; the unchanged tree needs milliseconds
+    hangs = 0
 
     def run(self, case):
-        """One case; never raises.  A hang of the code under test is an observation (SIGALRM, main thread only)."""
+        """One case; never raises.  A hang of the code under test is an observation (SIGALRM, main thread only);
+        after the first one the limit drops, after three the rest of the batch is skipped (each would cost the
+        limit again and say nothing new)."""
+        if self.hangs >= 3:
+            return {'skipped': True, 'oracle': [], 'hist': ['%s:skipped-after-3-hangs' % case.get('k')]}
+        limit = self.CASE_LIMIT if self.hangs == 0 else 8.0
         use_alarm = (case.get('k') != 'conc' and hasattr(signal, 'setitimer')
                      and threading.current_thread() is threading.main_thread())
         if use_alarm:
             def _on_alarm(signum, frame):
                 raise CodeHang()
             old = signal.signal(signal.SIGALRM, _on_alarm)
-            signal.setitimer(signal.ITIMER_REAL, self.CASE_LIMIT)
+            signal.setitimer(signal.ITIMER_REAL, limit)
+        TAP.states = {}         # nothing of an earlier case may be attributed to this one
         try:
             return self._run(case)
         except CodeHang:
+            self.hangs += 1
             TAP.close()
-            return {'code_raised': 'hang: no answer within %d s' % self.CASE_LIMIT, 'oracle': [],
+            try:
+                self.restore()
+            except Exception:
+                pass
+            return {'code_raised': 'hang: no answer within %d s' % limit, 'oracle': [],
                     'hist': ['%s:code-hang' % case.get('k')]}
         finally:
             if use_alarm:
